@@ -5,13 +5,23 @@ import (
 )
 
 func mapIso[FP fieldsImpl.FiniteFieldElementPtr[FP, F], P ZeroPointMapperParams[FP, F], F any](xnOut, xdOut, ynOut, ydOut *F, params P, xIn, yIn *F) {
-	var xNum, xDen, yNum, yDen F
+	var zero, one, xNum, xDen, yNum, yDen F
+	FP(&zero).SetZero()
+	FP(&one).SetOne()
 
 	polyEval[FP](&xNum, params.XNum(), xIn)
 	polyEval[FP](&xDen, params.XDen(), xIn)
 	polyEval[FP](&yNum, params.YNum(), xIn)
 	polyEval[FP](&yDen, params.YDen(), xIn)
 	FP(&yNum).Mul(&yNum, yIn)
+
+	// RFC 9380 section 6.6.3: a point in the kernel of the isogeny (a denominator evaluates to zero)
+	// is mapped to the identity. Return the fractions (0/1, 1/0), which setFractions turns into (0 : 1 : 0).
+	isKernel := FP(&xDen).IsZero() | FP(&yDen).IsZero()
+	FP(&xNum).Select(isKernel, &xNum, &zero)
+	FP(&xDen).Select(isKernel, &xDen, &one)
+	FP(&yNum).Select(isKernel, &yNum, &one)
+	FP(&yDen).Select(isKernel, &yDen, &zero)
 
 	FP(xnOut).Set(&xNum)
 	FP(xdOut).Set(&xDen)
